@@ -210,3 +210,34 @@ for _ax in ('z', '236'):
                 lhs, rhs = f(X)
                 h.is_type('type', lhs, _Twist3)
                 h.eq('same motion', lhs.exp().A, rhs.exp().A, tol=1e-7)
+
+
+# twist composition against the product of the motions, quick tier: concrete rotational parts (so exp / log branch on
+# numbers only) and SYMBOLIC moments, i.e. axes through arbitrary points -- parallel axes through different points
+# (where "rotations about a common direction commute" is false), a common axis, and skew axes
+_TW_PAIRS = {'parallel-axes': ((0, 0, 0.3), (0, 0, 0.5)), 'antiparallel-axes': ((0, 0.4, 0), (0, -0.7, 0)),
+             'skew-axes': ((0.3, 0, 0), (0, 0, 0.5)), 'rotation-then-translation': ((0.2, 0.3, 0.6), (0, 0, 0))}
+
+for _pn, (_w1, _w2) in _TW_PAIRS.items():
+    @claim(f'twist-composition:{_pn}', tol=1e-7, tier='thorough')
+    def _(h, w1=_w1, w2=_w2):
+        """exp(X * Y) = exp(X) exp(Y), and X * Y is a Twist3"""
+        v1, v2 = h.vec('v1_', 3, -10, 10), h.vec('v2_', 3, -10, 10)
+        X = _Twist3(h.arr([v1[0], v1[1], v1[2], *w1]))
+        Y = _Twist3(h.arr([v2[0], v2[1], v2[2], *w2]))
+        Z = X * Y
+        h.is_type('type', Z, _Twist3)
+        sc = 1 + nsq(v1) + nsq(v2)
+        h.eq('same motion', Z.exp().A, matmul(X.exp().A, Y.exp().A), tol=1e-7, scale=sc)
+
+
+@claim('twist-composition:parallel-axes-one-symbol', tol=1e-7)
+def _(h):
+    """quick-tier form of the same law: two revolute twists about the z direction, the second axis through the symbolic point
+    (p, 0.5, 0): exp(X * Y) = exp(X) exp(Y)"""
+    p = h.real('p', -10, 10)
+    X = _Twist3(h.arr([0, 0, 0, 0, 0, 0.3]))
+    Y = _Twist3(h.arr([0.25, -0.5 * p, 0, 0, 0, 0.5]))      # v = -w x q, w = (0, 0, 0.5), q = (p, 0.5, 0)
+    Z = X * Y
+    h.is_type('type', Z, _Twist3)
+    h.eq('same motion', Z.exp().A, matmul(X.exp().A, Y.exp().A), tol=1e-7, scale=1 + p * p)
